@@ -129,19 +129,21 @@ def WF : Packet → Prop
 instance (p : Packet) : Decidable p.WF := by
   cases p <;> unfold WF <;> infer_instance
 
-/-- `sequence_bytes_required`: number of bytes up to the highest non-zero one -/
+/-- `sequence_bytes_required`: number of bytes up to the highest non-zero one, at least 1
+    (so every sealed packet reaches the decoder's minimum of 2 + MAC bytes) -/
 def sequenceBytesRequired (sequence : Nat) : Nat :=
   go sequence 8
 where
-  /-- the `for i in 0..8` loop, mask = 0xFF << 8*(k-1) -/
+  /-- the `for i in 0..8` loop, mask = 0xFF << 8*(k-1); falling through returns 1 -/
   go (sequence : Nat) : Nat → Nat
-    | 0 => 0
+    | 0 => 1
     | k + 1 => if sequence / 256 ^ k % 256 ≠ 0 then k + 1 else go sequence k
 
 /-- `decode_prefix` -/
 def decodePrefix (v : UInt8) : Nat × Nat := (v.toNat % 16, v.toNat / 16)
 
-/-- `encode_prefix` (`value | (len << 4)`, `value ≤ 6`, `len ≤ 8`) -/
+/-- `encode_prefix` (`value | (len << 4)`, `value ≤ 6`, `1 ≤ len ≤ 8`; a connection request is
+    written with `encode_prefix(0, 0)` = 0x10) -/
 def encodePrefix (value : Nat) (sequence : Nat) : UInt8 :=
   UInt8.ofNat (value + sequenceBytesRequired sequence * 16)
 
